@@ -785,7 +785,15 @@ def _expand(helper, call, caller, cls, target_names: set, mode: str, tuple_targe
         result = rets[0][0].value
         body = body[:-1]
     stored = {n.id for n in ast.walk(helper) if isinstance(n, ast.Name) and isinstance(n.ctx, (ast.Store, ast.Del))}
-    caller_names = _local_names(caller)
+    used_before = getattr(caller, "_inl_names", set())   # names given to locals of helpers inlined into this caller earlier (each copy gets its own)
+    caller_names = _local_names(caller) | used_before
+
+    def fresh_(base):
+        nm_, k_ = base, 2
+        while nm_ in caller_names or nm_ in used_before:
+            nm_ = f"{base}_{k_}"
+            k_ += 1
+        return nm_
     subst, pre, mapping = {}, [], {}
     selfname = helper.args.args[0].arg if (cls and not static and helper.args.args) else None
     recv = call.func.value.id if isinstance(call.func, ast.Attribute) else None
@@ -807,7 +815,7 @@ def _expand(helper, call, caller, cls, target_names: set, mode: str, tuple_targe
             # `return h(.., a)`: nothing of the caller runs after the call, its `a` is dead as well
             mapping[p] = arg.id
             continue
-        name = p if (p not in caller_names or (isinstance(arg, ast.Name) and arg.id == p)) else f"{p}__{helper.name.strip('_')}"
+        name = p if (p not in caller_names or (isinstance(arg, ast.Name) and arg.id == p)) else fresh_(f"{p}__{helper.name.strip('_')}")
         if not (isinstance(arg, ast.Name) and arg.id == name):
             pre.append(ast.copy_location(ast.Assign([ast.Name(name, ast.Store())], copy.deepcopy(arg), lineno=call.lineno), call))
         if name != p:
@@ -815,7 +823,11 @@ def _expand(helper, call, caller, cls, target_names: set, mode: str, tuple_targe
     params = set(bound) | ({selfname} if selfname else set())
     for loc_ in sorted(_local_names(helper) - params):
         if loc_ in caller_names and loc_ not in target_names:
-            mapping[loc_] = f"{loc_}__{helper.name.strip('_')}"
+            mapping[loc_] = fresh_(f"{loc_}__{helper.name.strip('_')}")
+    try:
+        caller._inl_names = set(used_before) | set(mapping.values()) | {p_ for p_ in bound if p_ not in subst and p_ not in mapping} | (_local_names(helper) - set(mapping))
+    except AttributeError:
+        pass
     rn = _Rename(mapping, subst)
     new = [rn.visit(copy.deepcopy(s)) for s in body]
     if result is not None:
@@ -1762,6 +1774,8 @@ def normalize(modules) -> Report:
     n2.thread_constant_flags(modules, known, rep)
     n2.thread_none_sentinels(modules, known, rep)
     n2.resolve_conditional_joins(modules, known, rep)
+    n2.split_tuple_assign(modules, known, rep)
+    n2.propagate_fresh_locals(modules, known, rep)
     n2.unroll_constant_loops(modules, known, rep)
     n2.constant_attr_access(modules, rep)
     n2.unroll_small_lists(modules, known, rep)
